@@ -3,7 +3,8 @@ from .. import common as C
 from .. import engine as E
 from .. import catalogue as K
 
-THEOREMS = []
+THEOREMS = ["c02_refinement", "c02_final_error_holds_every_report", "c02_keep_going",
+            "c02_elements_independent", "c02_map_entries_independent", "c02_fields_independent"]
 
 
 def run(ctx, H):
